@@ -703,7 +703,9 @@ def call(
         step_inp = [executable, *su_inp_paths]
     else:
         # dumpns(do_amend=True) calls amend(out=args_file) before writing.
-        dumpns(su_args_file, forwarded)
+        # The called step resolves `args_file` in its working directory (as an input and on its
+        # command line), so this is where the file is written, not in the caller's directory.
+        dumpns(Path(su_workdir) / su_args_file, forwarded)
         command = f"{shlex.quote(executable)} {function} --inp={shlex.quote(su_args_file)}"
         step_inp = [executable, *su_inp_paths, su_args_file]
 
